@@ -510,7 +510,6 @@ def run_case(out, ask, st, mm, md, opts, built=None):
         st['with_nil'] = st.get('with_nil', 0) + 1
     if has_ws_value(F):
         st['with_whitespace_values'] = st.get('with_whitespace_values', 0) + 1
-    nref = count_nodes(real_x, lambda x: False)
     refs = sum(1 for _ in iter_refs(F))
     if refs:
         st['with_cross_references'] = st.get('with_cross_references', 0) + 1
